@@ -59,7 +59,7 @@ from vlib import cfg
 
 MANIFEST = dict(
     technique='RFC-derived frame decoder written in TLA+ (Wire.tla) checked against hand-assembled example packets (TLC, ASSUME level); P-spec TraceWire validates byte-exact captures of every frame real stacks emit (trace validation: TLC decodes, checksums and judges each frame against the abstract host state rebuilt from logged API/config events)',
-    text='harness/wired drives real stacks: single hosts (UDP writes of lengths 0..MTU and beyond from bound/connected/unbound sockets, v4/v6, several NICs/routes incl. gateway routes and two addresses per NIC; echo replies; ARP request/reply; NDP solicit/advert; ping sockets; RST replies to strays; active opens answered by a raw peer with every MSS/WS/TS/SACK-permitted combination; listeners receiving SYNs with every combination; out-of-order data provoking 1-4 SACK blocks), PAIRS of real stacks joined by tapped wires (MTU 68..1500, IPv4/IPv6, data both ways, held-back frames forcing SACK, SYN options stripped in flight to get connections without timestamps/SACK, FIN both ways, gateway routes, real ARP/NDP resolution) and fd-based Ethernet endpoints over socketpair(2). Every emitted frame is recorded byte for byte; TLC decodes it with the TLA+ decoder and requires WellFormed (lengths, IPv4 header checksum, ICMP/UDP/TCP checksums with pseudo-header, strict TCP option walk), IpIdFresh, SrcByRoute, PortsRight and DstMac.',
+    text='harness/wired drives real stacks: single hosts (UDP writes of lengths 0..MTU and beyond from bound/connected/unbound sockets, v4/v6, several NICs/routes incl. gateway routes and two addresses per NIC; echo replies; ARP request/reply; NDP solicit/advert; ping sockets; RST replies to strays; active opens answered by a raw peer with every MSS/WS/TS/SACK-permitted combination; listeners receiving SYNs with every combination; out-of-order data provoking 1-4 SACK blocks), PAIRS of real stacks joined by tapped wires (MTU 68..1500, IPv4/IPv6, data both ways, held-back frames forcing SACK, SYN options stripped in flight to get connections without timestamps/SACK, FIN both ways, gateway routes, real ARP/NDP resolution), next-hop scenarios (nothing pre-resolved, default route via a gateway, a responder on the wire answering ARP/NDP for the gateway and - proxy-ARP style - for every other address with a different MAC; UDP/TCP/ping to off-link destinations; the gateway then changes its MAC) and fd-based Ethernet endpoints over socketpair(2). Every emitted frame is recorded byte for byte; TLC decodes it with the TLA+ decoder and requires WellFormed (lengths, IPv4 header checksum, ICMP/UDP/TCP checksums with pseudo-header, strict TCP option walk), IpIdFresh, SrcByRoute, PortsRight and DstMac (link destination = the MAC most recently learnt for the next hop of the first matching route entry; ARP requests / neighbour solicitations only for next hops).',
     design='5 C06',
     note='Deviations from DESIGN C06: no separate Stack.tla (the abstract host state - nics, addrs, routes, neigh, socks - is rebuilt inside TraceWire from the logged events); WellFormed takes the EtherType (0 = Ethernet frame) instead of a link kind; ARP/NDP get their own instances of the addressing clauses (sender fields = NIC MAC / an address of the NIC, replies mirror the request, solicitation goes to the solicited-node address); frames of other checks arrive through validate_capture() instead of being aggregated here. Frames of checksum-offload links are exempt from transport-checksum clauses (as the code intends). SrcByRoute accepts any address of the NIC chosen by the first matching route entry (or the mirrored addresses of a packet being answered); the property does not say which of several addresses. NDP solicitations to a solicited-node multicast address may use the broadcast MAC (what the stack does) or the RFC 2464 multicast MAC. Forwarded packets are not driven. Frames are judged one by one: a frame that should have been emitted but was not is outside C06.')
 
@@ -462,6 +462,68 @@ def fam_eth_single(rng, thorough):
     return dict(name='eth-single', hosts=[h], ops=ops)
 
 
+GWM, HOSTM, PROXYM, GWM2 = '02:00:00:00:0c:01', '02:00:00:00:0c:07', '02:00:00:00:0c:ee', '02:00:00:00:0c:02'
+
+
+def fam_gateway(rng, thorough, kind='ip'):
+    """Next-hop resolution: one resolving NIC, [subnet on-link, default via a gateway] for v4 and v6, nothing
+    pre-resolved.  A responder on the wire answers ARP/NDP for the gateway and an on-link host with their MACs
+    and (proxy-ARP style) for ANY other address with a third MAC.  Locally originated traffic to OFF-link
+    destinations must be resolved through, and addressed to, the gateway; then the gateway changes its MAC."""
+    mtu = rng.choice([1500, 576])
+    table = {'10.0.0.1': GWM, '10.0.0.7': HOSTM, 'fd00::1': GWM, 'fd00::7': HOSTM}
+    nic = dict(id=1, mtu=mtu, mac=M11, kind=kind, resolve=True, addr4=['10.0.0.2', '10.0.0.3'], addr6=['fd00::2'],
+               responder=dict(table=table, proxy=PROXYM))
+    h = dict(id=1, sack=True, nics=[nic], neigh=[],
+             routes=[dict(dst='10.0.0.0', mask=MASK24, gw='', nic=1), dict(dst='0.0.0.0', mask=MASK0, gw='10.0.0.1', nic=1),
+                     dict(dst='fd00::', mask=MASK64, gw='', nic=1), dict(dst='::', mask=MASK0_6, gw='fd00::1', nic=1)])
+    far4 = ['192.0.2.9', '198.51.100.%d' % rng.randrange(1, 250), '10.0.9.9']
+    far6 = ['2001:db8::9', '2001:db8:1::%x' % rng.randrange(1, 0xfff)]
+    ops = []
+    order = ['udp4', 'udp6', 'tcp4', 'tcp6', 'ping4', 'ping6', 'conn4']
+    rng.shuffle(order)
+    sid = 0
+    for what in order:
+        sid += 1
+        v = 6 if what.endswith('6') else 4
+        far, near = (far6, 'fd00::7') if v == 6 else (far4, '10.0.0.7')
+        if what.startswith('udp'):
+            ops.append(dict(op='sock', s=sid, proto='udp', v=v))
+            ops.append(dict(op='bind', s=sid, addr='', port=4000 + sid))
+            for d in [rng.choice(far), near, rng.choice(far)]:
+                ops.append(dict(op='write', s=sid, n=rng.choice([0, 1, 2, 33, 100]), seed=sid, to=dict(addr=d, port=7)))
+        elif what == 'conn4':
+            ops.append(dict(op='sock', s=sid, proto='udp', v=4))
+            ops.append(dict(op='connect', s=sid, addr=rng.choice(far4), port=9))
+            ops.append(dict(op='write', s=sid, n=rng.choice([1, 64]), seed=sid))
+        elif what.startswith('ping'):
+            ops.append(dict(op='sock', s=sid, proto=what, v=v))
+            ops.append(dict(op='write', s=sid, n=rng.choice([0, 1, 56]), seq=sid, seed=sid, to=dict(addr=rng.choice(far), port=0)))
+        else:
+            d = rng.choice(far)
+            ops.append(dict(op='sock', s=sid, proto='tcp', v=v))
+            ops.append(dict(op='rpeer', p=sid, nic=1, src=d, sport=80, dst='fd00::2' if v == 6 else '10.0.0.2', dport=0, smac=GWM, isn=rng.randrange(1 << 31), autoack=True))
+            ops.append(dict(op='connect', s=sid, addr=d, port=80))
+            ops.append(dict(op='rsynack', p=sid, opts=syn_combo(rng, 15)))
+            ops.append(dict(op='connect_wait', s=sid))
+            ops.append(dict(op='write', s=sid, n=rng.choice([1, 2, 100]), seed=sid))
+            ops.append(dict(op='rwait', p=sid, bytes=1))
+            ops.append(dict(op='close', s=sid))
+        ops.append(dict(op='settle', ms=3))
+    if kind == 'ip':
+        # the gateway announces a new MAC (gratuitous ARP reply / unsolicited advertisement): the most recent claim counts
+        ops.append(dict(op='inject', nic=1, kind='arp', arpop=2, sha=GWM2, spa='10.0.0.1', tha=M11, tpa='10.0.0.2', smac=GWM2))
+        ops.append(dict(op='inject', nic=1, kind='na', src='fd00::1', dst='fd00::2', target='fd00::1', smac=GWM2))
+        sid += 1
+        ops.append(dict(op='sock', s=sid, proto='udp', v=4))
+        ops.append(dict(op='write', s=sid, n=5, seed=1, to=dict(addr=rng.choice(far4), port=7)))
+        sid += 1
+        ops.append(dict(op='sock', s=sid, proto='udp', v=6))
+        ops.append(dict(op='write', s=sid, n=6, seed=2, to=dict(addr=rng.choice(far6), port=7)))
+    ops.append(dict(op='settle', ms=10))
+    return dict(name='gateway-' + kind, hosts=[h], ops=ops)
+
+
 def fam_udp_big(rng, thorough):
     """datagrams at the 16-bit length limits on a 64 KiB link (F3 territory): the length fields must not wrap"""
     h = single_host(rng, mtu=65535, resolve=False)
@@ -491,6 +553,7 @@ def gen_scenarios(ctx, budget_frames):
             (fam_offload(rng, th), 9), (fam_eth_single(rng, th), 17), (fam_resolve(rng, th, 'eth'), 10),
             (fam_pair(rng, th, kind='ip', v=4, mtu=[68, 576, 1500][k % 3]), 60), (fam_pair(rng, th, kind='ip', v=6), 40),
             (fam_pair(rng, th, kind='eth', v=rng.choice([4, 6])), 45), (fam_pair(rng, th), 45),
+            (fam_gateway(rng, th, 'ip'), 40), (fam_gateway(rng, th, 'eth'), 36),
         ]
         if th and k % 8 == 0:
             round_.append((fam_udp_big(rng, th), 3))
@@ -787,6 +850,7 @@ def run(ctx):
         again = {}
         for k, ei, clauses in failed_lines(r2, loc2):
             again.setdefault(bad[k], []).append((ei, clauses, seg2[k][ei]))
+        reports = []
         for si in bad:
             cl1 = sorted(set(c for s_, _, cs in fails if s_ == si for c in cs))
             cl2 = sorted(set(c for _, cs, _ in again.get(si, []) for c in cs))
@@ -798,6 +862,14 @@ def run(ctx):
                 if tuple(clauses) in done:
                     continue
                 done.add(tuple(clauses))
+                reports.append((si, ei, clauses, ev))
+        # only five replay files are written: show every distinct clause set once before repeating one
+        first, rest, seen = [], [], set()
+        for x in reports:
+            (rest if tuple(x[2]) in seen else first).append(x)
+            seen.add(tuple(x[2]))
+        for si, ei, clauses, ev in first + rest:
+            if True:
                 ctx.violation('emitted frame fails %s: %s on host %s nic %s, scenario %s' % (','.join(clauses), ev.get('i'), ev.get('host'), ev.get('nic'), scs[si]['name']),
                               dict(kind='scenario', scenario=scs[si], event_index=ei, clauses=clauses, frame=hexs(ev.get('raw', [])), frame_bytes=ev.get('raw'),
                                    proto=ev.get('proto'), label=ev.get('i')),
@@ -814,6 +886,12 @@ def run(ctx):
             raise vlib.Inconclusive('driver did not produce the frame classes %s (classes seen: %s)' % (missing, sorted(st)))
         if frames < budget // 2:
             raise vlib.Inconclusive('driver produced only %d frames' % frames)
+        # the next-hop scenarios must really have sent through the gateway (a dead responder would hide everything)
+        for s_ in segs:
+            if str(s_[0].get('name', '')).startswith('gateway-'):
+                kinds = set(str(e.get('i', '')).replace('eth/', '').split(' ')[0] for e in s_ if e['ev'] == 'emit')
+                if not {'udp4', 'udp6', 'tcp4', 'tcp6', 'icmp4', 'icmp6', 'arp'} <= kinds or nframes(s_) < 25:
+                    raise vlib.Inconclusive('gateway scenario %s sent too little through the gateway: %s' % (s_[0].get('name'), sorted(kinds)))
     ctx.assumptions += ['pkg/sleep builds only with the verif-tagged assembly (hook H1)',
                         'the tap of harness/wire.Link and the far end of the socketpair show exactly the bytes the stack handed to the link',
                         'raw TCP peers and injected packets are built with harness/wire (driving only; never part of a verdict)']
